@@ -4,6 +4,7 @@ import (
 	"fmt"
 	"go/token"
 	"go/types"
+	"os"
 	"sort"
 	"strings"
 
@@ -430,6 +431,12 @@ func c06UseBeforeErr(c *c06ctx) {
 			}
 			for _, a := range call.Call.Args {
 				tn |= c.t.Of(a)
+			}
+			if tr := os.Getenv("VERIF_TAINT_TRACE"); tr != "" && strings.Contains(c.pos(call), tr) {
+				fmt.Fprintf(os.Stderr, "TAINT R06.5 %s operands %s\n", c.pos(call), tn)
+				for _, a := range call.Call.Args {
+					fmt.Fprintf(os.Stderr, "TAINT   arg %s = %s : %s\n", a.Name(), a.String(), c.t.Of(a))
+				}
 			}
 			if tn&core.TWire == 0 {
 				continue
